@@ -1,3 +1,4 @@
+import Lean.Elab.Tactic
 import CaresLemmas.ChanPolicyShape
 /-!
 # Frame invariant of `exec`: configuration, clock and server identities never change within a procedure
@@ -34,6 +35,25 @@ macro "chan_elim" : tactic => `(tactic| first
 /-- split a procedure body into its paths; `let`s are moved into the context as they come to the top, so the terms
     stay small -/
 macro "chan_paths" : tactic => `(tactic| repeat' (first | extract_lets | split))
+
+open Lean Elab Tactic Meta in
+/-- the goal is `P x` with `x` a `let` variable of the context: replace `x` by its value (one step) -/
+elab "unfold_state_let" : tactic => do
+  let g ← getMainGoal
+  g.withContext do
+    let t ← instantiateMVars (← g.getType)
+    match t with
+    | .app f (.fvar id) =>
+      match (← id.getDecl).value? with
+      | some v =>
+        let g' ← g.replaceTargetDefEq (mkApp f v)
+        replaceMainGoal [g']
+      | none => throwError "not a let variable"
+    | _ => throwError "the state is not a variable"
+
+/-- a predicate carried across a pair destructured by `split` -/
+theorem pair_fst {I : St → Prop} {e : St × Ret} {s1 : St} {r : Ret} (heq : e = (s1, r)) (h : I e.1) : I s1 := by
+  subst heq; exact h
 
 open Lean Elab Tactic Meta in
 /-- the goal is `P x` with `x` a `let` variable of the context: replace `x` by its value (one step) -/
@@ -136,10 +156,20 @@ macro "frame_congr" : tactic => `(tactic| (
   case h1 => exact rfl
   case h2 => exact rfl))
 
-macro "frame_step" hgo:term : tactic => `(tactic| first
+/-- one backward step of a leaf proof `I (… helpers … (go c (…)).1 …)`:
+    `spec` = the lemmas of the invariant for the helpers that matter to it (and the generated ones for plain updates),
+    `congr` = strip a structure update the invariant does not read -/
+macro "chan_step " hgo:term ", " spec:tactic ", " congr:tactic : tactic => `(tactic| first
   | assumption
   | with_reducible apply $hgo
-  | (with_reducible apply go_pair $hgo; assumption)
+  | (with_reducible apply pair_fst; assumption)
+  | $spec
+  | with_reducible chan_elim
+  | $congr
+  | unfold_state_let
+  | split)
+
+macro "frame_spec" : tactic => `(tactic| first
   | with_reducible apply Frame.incFailures
   | with_reducible apply Frame.setGood
   | with_reducible apply Frame.metricsRecord
@@ -148,11 +178,10 @@ macro "frame_step" hgo:term : tactic => `(tactic| first
   | with_reducible (first
       | apply Frame.emit | apply Frame.slog | apply Frame.ofault | apply Frame.mfault | apply Frame.oof
       | apply Frame.setQuery | apply Frame.setConn | apply Frame.setSock | apply Frame.modQuery | apply Frame.modConn
-      | apply Frame.modSock | apply Frame.modClient | apply Frame.cacheExpire)
-  | with_reducible chan_elim
-  | frame_congr
-  | (unfold_state_let; split))
+      | apply Frame.modSock | apply Frame.modClient | apply Frame.cacheExpire))
 
-macro "frame_leaf" hgo:term : tactic => `(tactic| repeat (frame_step $hgo))
+macro "frame_step" hgo:term : tactic => `(tactic| chan_step $hgo, frame_spec, frame_congr)
+
+macro "frame_leaf" hgo:term : tactic => `(tactic| repeat' (frame_step $hgo))
 
 end Cares.Chan
